@@ -32,7 +32,7 @@ ASSUMPTIONS = ["index-less Indicator.reading()/prev_reading() are compared only 
 
 def plan(tier):
     if tier == "thorough":
-        return {"shards": 16, "cases": 16000, "shard_timeout_s": 3000, "shard_budget_s": 1500}
+        return {"shards": 16, "cases": 100000, "shard_timeout_s": 3000, "shard_budget_s": 1500}
     return {"shards": 16, "cases": 4000, "shard_timeout_s": 600, "shard_budget_s": 100}
 
 
